@@ -61,7 +61,14 @@ def gen_rich_logical(rng, depth):
     return ["op", rng.choice(["&&", "||"]), gen_rich_logical(rng, depth - 1), gen_rich_logical(rng, depth - 1)]
 
 
+# accepted spellings outside the RFC grammar that the printer has to cope with: slices written without brackets
+RAW = ["$1:2 3:4", "$1:2", "$:2 1:", "$.a 1:2", "$..1:2", "$[?@ 1:2]", "$1:2.a", "$ 1:2:3 -1:", "$1:2 3:4 5:6:-1", "$.a 0: 1:", "$[?@.a 1: == 2]",
+       "$[?count(@ :2) > 1]", "$ : :", "^1:2 | $ 3:4"]
+
+
 def gen(rng, tier):
+    for text in RAW:
+        yield {"text": text, "docs": [[0, 1, 2, 3, 4, 5, 6, [7, 8, 9]], {"a": [[1, 2, 3], [4, 5]]}, [[0, 1, 2], [3, 4, 5]]], "ctx": Q.CTX, "env": None}
     n = 8000 if tier == "thorough" else 900
     for i in range(n):
         docs = [gen_container(rng, 3, 3, DOCS_NAMES) for _ in range(3)]
